@@ -358,10 +358,11 @@ theorem restart_keeps_tag (ls : List Leaf) (s : Sink) : (Sink.restart ls s).tag 
     (Sink.restart ls s).mtime = s.mtime ∧ (Sink.restart ls s).cur = s.cur ∧ (Sink.restart ls s).closed = s.closed := by
   simp [Sink.restart]
 
-/-- a history of restarts and of messages none of which rotates -/
+/-- a history of restarts, appends by other writers, and of messages none of which rotates -/
 def Quiet (ls : List Leaf) : Sink → List SinkOp → Prop
   | _, [] => True
   | s, .restart :: ops => Quiet ls (Sink.restart ls s) ops
+  | s, .foreign n :: ops => Quiet ls (Sink.foreign s n) ops
   | s, .msg m :: ops =>
     (groupCall ls s.states
       { ctime := s.creation, stamp := m.stamp, bytes := m.bytes, chars := m.chars, tell := s.cur.size }).1 = false ∧
@@ -387,6 +388,9 @@ theorem restart_counts_from_rotation_instant (ls : List Leaf) (s : Sink) (m : Ms
       | restart =>
         simp only [Sink.runOps, List.foldl_cons, Sink.step]
         exact ih _ v (by rw [(restart_keeps_tag ls t).1]; exact ht) hq
+      | foreign n =>
+        simp only [Sink.runOps, List.foldl_cons, Sink.step]
+        exact ih _ v (by simpa [Sink.foreign] using ht) hq
       | msg m' =>
         simp only [Sink.runOps, List.foldl_cons, Sink.step]
         exact ih _ v (write_keeps_tag ls t m' v ht hq.1) hq.2
